@@ -7,7 +7,13 @@ on the real code, with the library's randomness *owned*:
   inside the worker, by an answer tape.  The uniform numbers handed to the library come from a fixed family
   of deterministic tapes (value alphabets selected by VERIF_SEED); the answer of every shuffle is enumerated:
   all n! permutations when the shuffled vector has n <= 5 entries (<= 120 answers), otherwise the fixed family
-  {identity, reversal, every adjacent transposition, every rotation}.  Any other numpy.random function is
+  {identity, reversal, every adjacent transposition, every rotation}.  The other legacy ways of obtaining the same
+  kinds of answers are owned by the same tape: random / random_sample / ranf / sample / rand (the U[0,1) source),
+  permutation (a rearranged copy) and choice.  A choice WITHOUT replacement is a rearrangement; for a choice WITH
+  replacement every tuple of indices is a legal answer of the RNG: as soon as a run consumed one, the answers that
+  are not rearrangements are enumerated too (all n^n - n! for n <= 3, else one element n times (first / last) and
+  one repetition at the start / middle / end) - a generator that 'shuffles' by drawing with replacement loses
+  elements of the Halton window / leaves strata empty under those answers.  Any other numpy.random function is
   trapped (calling it is a harness error: unowned randomness).
 
 Parts
@@ -25,8 +31,11 @@ Parts
          finding (key kept) or some other number ('...|not-the-as241-value'), so that no other defect of the transform
          hides behind the open finding.
   hskip  entries that advertise a base but no skip: one and the same skip must fit every size.
-  hd     draws.get_halton_draws directly: more bases / skips / symmetric / shuffled (owned shuffle).
-  lhs    draws.get_latin_hypercube_draws / get_antithetic directly with explicit uniform numbers.
+  hd     draws.get_halton_draws directly: more bases / skips / symmetric / shuffled (owned shuffle; whatever the RNG
+         answers, the shuffled series is a rearrangement of the window).
+  lhs    draws.get_latin_hypercube_draws / get_antithetic directly with explicit uniform numbers, supplied in every
+         array form of the right total size (vector, (N, R) table, (R, N) table, column, row, strided view) and through
+         the keyword uniform_numbers, its old name uniformNumbers and the deprecated alias getLatinHypercubeDraws.
   shape  Database.generate_draws shape enforcement with user generators returning wrong / right shapes.
   hist   histories of requests in ONE process (the statement holds whatever was requested before and whatever the
          caller did with the arrays it was given): every ordered pair (thorough: also every ordered triple) of
@@ -63,7 +72,8 @@ from vf import ref_draws as R_
 ID = 'C11'
 LEVEL = 'exploration'
 TECHNIQUE = ('bounded exhaustive enumeration of catalogue entries x sizes x owned RNG answers (uniform tapes, all/'
-             'family of shuffle permutations), of all request histories of depth 2 (3) over the catalogue x sizes x entry '
+             'family of shuffle permutations, index tuples of a selection with replacement), of the array forms and '
+             'keywords in which a caller supplies uniform numbers to the Latin-hypercube generator, of all request histories of depth 2 (3) over the catalogue x sizes x entry '
              'points x in-place caller actions in one process, of all requests of 2 (3) variables x orders of the names x '
              'insertion orders of the dictionary of types x entry points (Database.generate_draws, IdManager), of all histories of 1-2 (3) '
              'registrations of user-defined generators (valid / reserved names x formats x methods) on one Database before a request, and of an exhaustive grid of uniform inputs for the quantile transform, '
@@ -83,8 +93,15 @@ RULE = ('gen: one case per (catalogue entry, N, R, uniform tape, shuffle answer)
         'through the flat path, tails/branch points also through the (N, R)-shaped and the antithetic path; all '
         'non-trivial. hskip: one case per (entry without advertised skip, N, R). hd: get_halton_draws for bases '
         '{2,3,5,7[,11,13]} x skips x sizes with N*R <= 20 (60) x symmetric x {unshuffled, shuffled with every answer '
-        '(n <= 5) / a family of ~8 answers}. lhs: get_latin_hypercube_draws with explicit uniform numbers (every tape) x '
-        'symmetric x shuffle answers, get_antithetic with a deterministic generator. shape: Database.generate_draws '
+        '(n <= 5) / a family of ~8 answers}; when the run consumed a selection with replacement, also the answers that '
+        'are not rearrangements (all n^n - n! for n <= 3, else 5) - the same extension in gen (first tape) and lhs. '
+        'lhs: get_latin_hypercube_draws with explicit uniform numbers (every tape) x '
+        'symmetric x shuffle answers, the numbers supplied as a vector through uniform_numbers (every shuffle answer of '
+        'the family) and as {(N, R) table, (R, N) table, column, row, strided vector view} through uniform_numbers, '
+        '{vector, (N, R) table} through the old keyword uniformNumbers and through the alias getLatinHypercubeDraws '
+        '(3 shuffle answers each: one point per stratum, at the supplied positions, shape, no further RNG call; finding '
+        'keys C11|lhs-generator-explicit-uniforms|symmetric=..,form=..), get_antithetic with a deterministic generator. '
+        'q: the special points also as a one-dimensional vector. shape: Database.generate_draws '
         'with user generators returning 7 shapes x 6 sizes. hist: one case per step of a history of requests made in one '
         'process; a step = (entry, N, R, entry point in {generator, Database.generate_draws on one Database per sample '
         'size kept through the history}, what the caller then does in place with the array it received in {nothing, '
@@ -121,7 +138,14 @@ RULE = ('gen: one case per (catalogue entry, N, R, uniform tape, shuffle answer)
 ASSUMPTIONS = [
     'biogeme.draws obtains randomness only through numpy.random.uniform and numpy.random.shuffle looked up on the '
     'numpy.random module at call time (the owned seam); other legacy numpy.random functions are trapped and reported '
-    'as a harness error if called',
+    'as a harness error if called; numpy.random.random / random_sample / ranf / sample / rand, permutation and choice '
+    'are owned by the same tape (choice with replacement: answers that are not rearrangements are enumerated only '
+    'after a run consumed such a selection, from a family of 5 when more than 3 elements are selected; the '
+    'probabilities argument p of choice is ignored: every index tuple is taken as a possible answer)',
+    'part lhs: the uniform numbers are supplied as C-contiguous arrays or a strided one-dimensional view; a '
+    'two-dimensional array in Fortran order (which the library cannot reshape in place: AttributeError) is outside '
+    'the explored domain; for the forms other than the vector the oracle is the statement (one point per stratum) plus '
+    'the multiset of the positions inside the strata, not the order of the points',
     'uniform answers come from a fixed finite family of tapes with values in [2^-20, 1-2^-20] (plus AS241 branch '
     'neighbours), not from all of (0,1); shuffle answers are complete only for n <= 5',
     'libm erf/erfc (math.erf, math.erfc) are accurate to a few ulp: the reference quantile is certified by a '
@@ -888,30 +912,35 @@ def _part_hd(task, rec, only=None):
                 perms, _ = perm_alphabet(n * r)
                 if n * r > 5:
                     perms = perms[:2] + perms[2::max(1, (len(perms) - 2) // 6)]
-                todo = [(False, ('id',))] + [(True, p) for p in perms]
+                todo = [(False, ('id',), 'new')] + [(True, p, 'new') for p in perms]
+                # ... and through the deprecated alias getHaltonDraws (unshuffled; shuffled with the reversal)
+                todo += [(False, ('id',), 'alias'), (True, ('rev',), 'alias')]
                 extended = False
                 if only and only.get('perm', ['id'])[0] in ('map', 'const', 'dup'):      # replay of such an answer
                     extended = True
-                    todo += [(True, tuple(q)) for q in noninjective_alphabet(n * r)[0]]
+                    todo += [(True, tuple(q), 'new') for q in noninjective_alphabet(n * r)[0]]
                 while todo:
-                    shuffled, perm = todo.pop(0)
+                    shuffled, perm, call = todo.pop(0)
                     case = dict(part='hd', base=base, skip=skip, N=n, R=r, symmetric=symmetric, shuffled=shuffled,
                                 perm=list(perm))
-                    if only and {k: only.get(k) for k in case} != case:
+                    if call != 'new':
+                        case['call'] = call
+                    if only and ({k: only.get(k) for k in case} != case or only.get('call', 'new') != call):
                         continue
                     tape = Tape(TAPES[0], perm)
                     with owned(tape):
                         try:
-                            out = dr.get_halton_draws(n, r, symmetric=symmetric, base=base, skip=skip, shuffled=shuffled)
+                            out = (dr.get_halton_draws if call == 'new' else dr.getHaltonDraws)(
+                                n, r, symmetric=symmetric, base=base, skip=skip, shuffled=shuffled)
                         except UnownedRandomness:
                             raise
                         except Exception as e:  # noqa: BLE001
                             out = e
-                    key = ('hd', base, skip, n, r, symmetric, shuffled, repr(perm))
+                    key = ('hd', base, skip, n, r, symmetric, shuffled, repr(perm)) + ((call,) if call != 'new' else ())
                     if isinstance(out, Exception) or tuple(out.shape) != (n, r):
                         rec.case(key, (key, 'bad'), outcome=('hd', 'bad'))
                         rec.violation(f'C11|halton-generator-shape-or-error|base={base}',
-                                      f'get_halton_draws({n}, {r}, symmetric={symmetric}, base={base}, skip={skip}, '
+                                      f'{"get_halton_draws" if call == "new" else "getHaltonDraws"}({n}, {r}, symmetric={symmetric}, base={base}, skip={skip}, '
                                       f'shuffled={shuffled}) gave {out!r:.200}', case, expected=[n, r],
                                       observed=repr(out)[:200])
                         continue
@@ -919,7 +948,7 @@ def _part_hd(task, rec, only=None):
                         # the series was 'shuffled' by a selection WITH replacement: every tuple of indices is a legal
                         # answer of the RNG; enumerate those that are not rearrangements too
                         extended = True
-                        todo += [(True, tuple(q)) for q in noninjective_alphabet(n * r)[0]]
+                        todo += [(True, tuple(q), 'new') for q in noninjective_alphabet(n * r)[0]]
                     got = flat(out)
                     if perm[0] in ('map', 'const', 'dup'):
                         # whatever the RNG answers, a shuffled series is a rearrangement of the window
@@ -945,7 +974,7 @@ def _part_hd(task, rec, only=None):
                     if not ok:
                         rec.violation(
                             f'C11|halton-generator-not-radical-inverse|base={base},symmetric={symmetric},shuffled={shuffled}',
-                            f'get_halton_draws({n}, {r}, symmetric={symmetric}, base={base}, skip={skip}, '
+                            f'{"get_halton_draws" if call == "new" else "getHaltonDraws"}({n}, {r}, symmetric={symmetric}, base={base}, skip={skip}, '
                             f'shuffled={shuffled}) with shuffle answer {perm} is not the radical-inverse window '
                             f'{skip + 1}..{skip + n * r}', case, expected=exp[:6], observed=got[:6])
 
